@@ -335,6 +335,17 @@ func c13Life(c *mon.Ctx, r *mon.Rand) {
 			hiV   float64
 			hiD   int64
 		}
+		type rangeOf struct {
+			hist, lo, hi string
+			hiV          float64
+			hiD          int64
+			isDur        bool
+		}
+		rangeOwner := map[string]rangeOf{} // bucket-range tag value -> first bucket seen with it
+		effPrec := opts.HistogramBucketTagPrecision
+		if effPrec == 0 {
+			effPrec = 6
+		}
 		bucketTags := map[string]bt{}          // hist id + bucket index -> tags seen
 		histBuckets := map[string]map[int]bt{} // hist id -> bucket index -> tags
 		for _, m := range msgs {
@@ -370,6 +381,23 @@ func c13Life(c *mon.Ctx, r *mon.Rand) {
 						bad("bucket-tags-differ", fmt.Sprintf("histogram %s bucket %d (%s,%s] carried tags %s/%s and %s/%s", cl.HistID, cl.BucketN, cl.Lo, cl.Hi, prev.id, prev.b, bid, bname))
 					}
 					bucketTags[hk] = bt{bid, bname, cl.HiV, cl.HiD}
+					// the bucket-range tag denotes the bucket's own range: one tag value
+					// must not stand for two buckets whose upper bounds differ by more than
+					// the configured precision can hide (durations render exactly)
+					if prev, ok := rangeOwner[bname]; ok && prev.isDur == cl.IsDur {
+						differ := false
+						if cl.IsDur {
+							differ = prev.hiD != cl.HiD
+						} else {
+							tol := 2 * math.Pow(10, -float64(effPrec))
+							differ = math.Abs(prev.hiV-cl.HiV) > tol && !(math.IsInf(prev.hiV-cl.HiV, 0))
+						}
+						if differ {
+							bad("bucket-range-tag-of-another-bucket", fmt.Sprintf("bucket-range tag %q is carried by histogram %s bucket (%s,%s] and by histogram %s bucket (%s,%s]", bname, prev.hist, prev.lo, prev.hi, cl.HistID, cl.Lo, cl.Hi))
+						}
+					} else if !ok {
+						rangeOwner[bname] = rangeOf{cl.HistID, cl.Lo, cl.Hi, cl.HiV, cl.HiD, cl.IsDur}
+					}
 					if histBuckets[cl.HistID] == nil {
 						histBuckets[cl.HistID] = map[int]bt{}
 					}
